@@ -1,9 +1,10 @@
 (* One dispatcher for every view-based stream: build the view from its dump, then answer queries. *)
-From PG Require Import Lib.Io Model.View Model.Traversal Model.AlgoBasic Model.ShortestM Model.MstM Model.CondenseM Model.MatchM Model.FlowM Model.CutM.
+From PG Require Import Lib.Io Model.View Model.Traversal Model.AlgoBasic Model.ShortestM Model.MstM Model.CondenseM Model.MatchM Model.FlowM Model.CutM Model.TravExtra.
 
 Definition answer (debug : bool) (v : view) (o : line) : list line :=
   let code := fst o in
-  if Nat.ltb code 20 then trav_query debug v o
+  if Nat.eqb code 19 then dpo_reset_query v o
+  else if Nat.ltb code 20 then trav_query debug v o
   else if Nat.eqb code 29 then cond_query v o
   else if Nat.ltb code 30 then algo_query debug v o
   else if Nat.ltb code 40 then short_query v o
